@@ -41,6 +41,7 @@ def fixed_env(extra=None):
         'HOME': os.environ.get('HOME', '/root'),
         'LANG': 'C',
         'CARGO_NET_OFFLINE': 'true',
+        'RAYON_NUM_THREADS': '2',
     }
     for k in ('RUSTUP_HOME', 'CARGO_HOME'):
         if k in os.environ:
@@ -283,8 +284,9 @@ class Verdict:
         for sig, what, detail, vprop in self.violations:
             key = (vprop, sig)
             if key in known_sigs:
-                known_hit.setdefault((vprop, sig), (what, 0))
-                known_hit[(vprop, sig)] = (what, known_hit[(vprop, sig)][1] + 1)
+                kw = known_sigs[key].get('what', what)
+                known_hit.setdefault((vprop, sig), (kw, 0))
+                known_hit[(vprop, sig)] = (kw, known_hit[(vprop, sig)][1] + 1)
             else:
                 new.append((sig, what, detail, vprop))
         wall = time.time() - self.t0
